@@ -124,8 +124,7 @@ static void scenario(int cfg)
                     "registered %s)", ncb,
                     C->attr_late ? "through the creation attribute" : "by set_callback");
         abtmc_check(ok_rank, "migrated_to_parked_stream",
-                    "U continued on rank %d (parked mask %d)", rank_after, C->parked); U continued on rank %d (parked mask %d)", ncb,
-                    rank_after, C->parked);
+                    "U continued on rank %d (parked mask %d)", rank_after, C->parked);
     }
     abtmc_observe("rc%d cb%d rank%d", req_rc, ncb, rank_after);
     OK(ABT_thread_free(&U));
